@@ -210,6 +210,7 @@ def judge(spec, results):
         add('X', 'X_REF_CRASH:%s' % cc, 'sequential reference run ended with %s at %s' % (cc, ref.crash_site() if ref is not None else '?'), 'ref')
         return V
     fref = plans.fingerprint(ref)
+    fref_aln = plans.fingerprint(ref, alignment_only=True)
     if ref2 is not None:
         if ref2.crashed():
             add('C02', 'C02_UNINIT_DEPENDENCE', 'sequential run with other heap garbage ended with %s' % ref2.crash_class(), 'ref2')
@@ -243,7 +244,7 @@ def judge(spec, results):
             else:
                 add('C02', cls, 'the sequential reference completed, this schedule (%d threads, %s) ended with %s at %s' % (run['nthreads'], run['variant'], cc, r.crash_site()), tag)
             continue
-        d = plans.first_difference(fref, plans.fingerprint(r))
+        d = plans.first_difference(fref_aln, plans.fingerprint(r, alignment_only=True))
         if d:
             add('C02', 'C02_OUTPUT_DIFFERS', 'schedule with %d threads (%s) vs sequential reference: %s' % (run['nthreads'], run['variant'], d), tag)
     return V
